@@ -352,6 +352,9 @@ struct MockBlob {
     filter: CombinedFilter<HK>,
     /// a child that cannot hand out its filter synchronously (forces the async path)
     slow: bool,
+    /// a child that cannot hand out a filter at all (what a whole Storage does while it has no closed blob): it still answers
+    /// for its own keys, but a group it joins can no longer know what it holds
+    no_filter: bool,
 }
 
 #[async_trait]
@@ -367,10 +370,14 @@ impl BloomProvider<HK> for MockBlob {
         self.filter.offload_filter()
     }
     async fn get_filter(&self) -> Option<Self::Filter> {
-        Some(self.filter.clone())
+        if self.no_filter {
+            None
+        } else {
+            Some(self.filter.clone())
+        }
     }
     fn get_filter_fast(&self) -> Option<&Self::Filter> {
-        if self.slow {
+        if self.slow || self.no_filter {
             None
         } else {
             Some(&self.filter)
@@ -383,7 +390,13 @@ impl BloomProvider<HK> for MockBlob {
 
 #[derive(Clone, Debug, Serialize, Deserialize)]
 pub enum HOp {
-    Push { keys: Vec<[u8; 4]>, with_bloom: bool, slow: bool },
+    Push {
+        keys: Vec<[u8; 4]>,
+        with_bloom: bool,
+        slow: bool,
+        #[serde(default)]
+        no_filter: bool,
+    },
     Pop,
     Remove { sel: u16 },
     Offload { level: u8, needed_small: bool },
@@ -402,7 +415,7 @@ pub struct HierCase {
 
 pub fn hier_strategy() -> BoxedStrategy<HierCase> {
     let op = prop_oneof![
-        10 => (prop::collection::vec(k4_strategy(), 0..6), prop::bool::weighted(0.7), prop::bool::weighted(0.15)).prop_map(|(keys, with_bloom, slow)| HOp::Push { keys, with_bloom, slow }),
+        10 => (prop::collection::vec(k4_strategy(), 0..6), prop::bool::weighted(0.7), prop::bool::weighted(0.15), prop::bool::weighted(0.12)).prop_map(|(keys, with_bloom, slow, no_filter)| HOp::Push { keys, with_bloom, slow, no_filter }),
         3 => Just(HOp::Pop),
         2 => any::<u16>().prop_map(|sel| HOp::Remove { sel }),
         3 => (0u8..4, any::<bool>()).prop_map(|(level, needed_small)| HOp::Offload { level, needed_small }),
@@ -425,12 +438,12 @@ pub fn run_hier(c: &HierCase, _dir: &Path) -> Result<CaseOut, Failure> {
     let mut max_live = 0usize;
     for (step, op) in c.ops.iter().enumerate() {
         match op {
-            HOp::Push { keys, with_bloom, slow } => {
+            HOp::Push { keys, with_bloom, slow, no_filter } => {
                 let f = CombinedFilter::new(if *with_bloom { Some(Bloom::new(cfg.clone())) } else { None }, RangeFilter::new());
                 for k in keys {
                     FilterTrait::add(&f, &HK::from(*k));
                 }
-                let id = rt.block_on(h.push(MockBlob { id: next_mock, keys: keys.clone(), filter: f, slow: *slow }));
+                let id = rt.block_on(h.push(MockBlob { id: next_mock, keys: keys.clone(), filter: f, slow: *slow, no_filter: *no_filter }));
                 mock_of.insert(id, next_mock);
                 next_mock += 1;
                 live.insert(id, keys.clone());
@@ -563,7 +576,7 @@ pub fn run(ctx: &RunCtx) -> PropResult {
     let sample_b = |c: &BloomCase| json!({"elements": c.elements, "hashers": c.hashers, "max_bits": c.max_bits, "fpr_millis": c.fpr_millis, "added": c.a.len(), "other": c.b.len(), "probes": c.probes.len(), "file_offset": c.file_offset, "range_keys": c.ka.len()});
     run_replays::<BloomCase, _>(ctx, "bloom", &ctx.verif_dir.join("replays").join("C10"), run_bloom, &mut report);
     run_generated(ctx, "bloom", ctx.tier.pick(60_000, 400_000), bloom_strategy, run_bloom, &sample_b, &mut report);
-    let sample_h = |c: &HierCase| -> Value { json!({"group": c.group, "level": c.level, "bloom_bits": c.bloom_bits, "ops": c.ops.iter().map(|o| match o { HOp::Push { keys, with_bloom, slow } => format!("push({} keys,bloom={},slow={})", keys.len(), with_bloom, slow), other => format!("{:?}", other) }).collect::<Vec<_>>() }) };
+    let sample_h = |c: &HierCase| -> Value { json!({"group": c.group, "level": c.level, "bloom_bits": c.bloom_bits, "ops": c.ops.iter().map(|o| match o { HOp::Push { keys, with_bloom, slow, no_filter } => format!("push({} keys,bloom={},slow={},hands_out_no_filter={})", keys.len(), with_bloom, slow, no_filter), other => format!("{:?}", other) }).collect::<Vec<_>>() }) };
     run_replays::<HierCase, _>(ctx, "hier", &ctx.verif_dir.join("replays").join("C10"), run_hier, &mut report);
     run_generated(ctx, "hier", ctx.tier.pick(30_000, 200_000), hier_strategy, run_hier, &sample_h, &mut report);
     let p = profile();
